@@ -126,13 +126,16 @@ def check_program(ctx, prog, stats, kind):
         if (D.impl_kind(om), em) != (r["impl"], r["entered"]):
             ctx.violation(f"as a method of a class the call gives {(om, em)}, as a plain function {(r['impl_raw'], r['entered'])}", dict(prog, calls=[call], method_mode=True))
             return
+    broken_tie = False
     for call, r in zip(prog["calls"], res):
+        if broken_tie and len(ctx.violations) > 12:
+            return
         stats["evaluations"] += 1
         stats[kind] += 1
         case = dict(prog, calls=[call])
         if r["impl"] != r["model"]:
             ctx.violation(f"implementation {r['impl_raw']} != model {r['model']}", case, kind="correspondence")
-            return
+            broken_tie = True       # keep going: the isinstance oracle below does not depend on the model
         v = dec_val(call["vals"][0], w)
         holders = []
         bad = False
